@@ -176,13 +176,20 @@ Fixpoint ch_done_calls (acts : list (cact Z)) (nw nr : nat) (dw dr : list Z) : l
   | CCancelR j :: t => ch_done_calls t nw nr dw (Z.of_nat j :: dr)
   | CClose :: t => ch_done_calls t nw nr dw dr
   end.
-Definition spec_chan_ctx (steps : list (list (cact Z) * chobs)) : bool :=
-  let '(dw, dr) := ch_done_calls (flat_map fst steps) 0 0 [] [] in
-  match rev steps with
+(* ... at EVERY quiescent point, not only the last one (a call that ignores its context may be released later by
+   something else: it must not have been parked meanwhile) *)
+Fixpoint spec_chan_ctx_from (nw nr : nat) (dw dr : list Z) (steps : list (list (cact Z) * chobs)) : bool :=
+  match steps with
   | [] => true
-  | (_, o) :: _ => forallb (fun i => negb (existsb (Z.eqb i) dw)) (co_pw o)
-                   && forallb (fun j => negb (existsb (Z.eqb j) dr)) (co_pr o)
+  | (acts, o) :: rest =>
+      let '(dw1, dr1) := ch_done_calls acts nw nr dw dr in
+      let nw1 := (nw + length (filter (fun a => match a with CWrite _ _ => true | _ => false end) acts))%nat in
+      let nr1 := (nr + length (filter (fun a => match a with CRead _ => true | _ => false end) acts))%nat in
+      forallb (fun i => negb (existsb (Z.eqb i) dw1)) (co_pw o)
+      && forallb (fun j => negb (existsb (Z.eqb j) dr1)) (co_pr o)
+      && spec_chan_ctx_from nw1 nr1 dw1 dr1 rest
   end.
+Definition spec_chan_ctx (steps : list (list (cact Z) * chobs)) : bool := spec_chan_ctx_from 0 0 [] [] steps.
 
 (* ====================================================================== *)
 (* WebSocket                                                               *)
@@ -258,6 +265,10 @@ Definition ws_write_events (evs : list (wsev rpc)) : list (wsev rpc) :=
 Definition spec_ws_noerr (acts : list (wsact rpc bytes)) (evs : list (wsev rpc)) : bool :=
   existsb (fun a => match a with WsBreak | WsCancelRead => true | _ => false end) acts
   || forallb (fun e => match e with WsEvRead WsCtx | WsEvRead WsConn | WsEvWrite _ false => false | _ => true end) evs.
+(* a Read whose context is done is not left parked: at the quiescent point after a cancel no Read is blocked *)
+Definition spec_ws_ctx (steps : list (list (wsact rpc bytes) * wsobs)) : bool :=
+  forallb (fun p => negb (existsb (fun a => match a with WsCancelRead => true | _ => false end) (fst p)) || negb (wo_rd (snd p))) steps.
+
 Definition spec_ws (steps : list (list (wsact rpc bytes) * wsobs)) : bool :=
   let evs := flat_map (fun p => wo_events (snd p)) steps in
   ws_match (ws_sent_of (flat_map fst steps) (ws_write_events evs)) (ws_frame_results evs)
@@ -413,6 +424,25 @@ Definition spec_http (steps : list (list (hact bytes) * hobs)) : bool :=
   && forallb (fun a => existsb (fun b => match http_classify decode rig_route b with
                                          | VDeliver a' _ => a' =? fst a | _ => false end) posts) ann.
 
+(* a Read / Write whose context is done (issued with a done context, or cancelled later) is not parked at any
+   quiescent point from then on *)
+Fixpoint spec_http_ctx_from (nr nw : nat) (dr dw : list Z) (steps : list (list (hact bytes) * hobs)) : bool :=
+  match steps with
+  | [] => true
+  | (acts, o) :: rest =>
+      let '(nr1, nw1, dr1, dw1) :=
+        fold_left (fun st a => let '(nr, nw, dr, dw) := st in
+                     match a with
+                     | HRead _ d => (S nr, nw, (if d then Z.of_nat nr :: dr else dr), dw)
+                     | HWrite _ d => (nr, S nw, dr, (if d then Z.of_nat nw :: dw else dw))
+                     | HCancelRead r => (nr, nw, Z.of_nat r :: dr, dw)
+                     | _ => st
+                     end) acts (nr, nw, dr, dw) in
+      forallb (fun j => negb (existsb (Z.eqb j) dr1)) (ho_pr o)
+      && forallb (fun i => negb (existsb (Z.eqb i) dw1)) (ho_pw o)
+      && spec_http_ctx_from nr1 nw1 dr1 dw1 rest
+  end.
+
 (* an idle connection: after the last step no Read is parked on a connection
    that is not registered any more, and no context-done call is parked *)
 
@@ -462,11 +492,13 @@ Definition check (c : c19case) : list nat :=
   | CWs steps =>
       (match agree_from ws_react_all ws_predict wsobs_eqb wsst_eqb 0 [ws_init] steps with
        | None => [] | Some _ => [1%nat] end) ++
-      (if spec_ws steps then [] else [2%nat])
+      (if spec_ws steps then [] else [2%nat]) ++
+      (if spec_ws_ctx steps then [] else [3%nat])
   | CHttp iv tmo now steps =>
       (match agree_from h_react_all h_predict hobs_eqb hst_eqb 0 [h_init iv tmo now] steps with
        | None => [] | Some _ => [1%nat] end) ++
-      (if spec_http steps then [] else [2%nat])
+      (if spec_http steps then [] else [2%nat]) ++
+      (if spec_http_ctx_from 0 0 [] [] steps then [] else [3%nat])
   | CAssert _ b => if b then [] else [2%nat]
   | CHttpRaw b status delivered =>
       (* the classification IS the property (400 iff absent / unreadable / undecodable / no header /
